@@ -38,3 +38,7 @@ func init() {
 func init() {
 	registerReplay([]string{"(*dht.Server).handleQuery"}, ".", "root/server_replay_test.go", "TestGovcReplayServer")
 }
+
+func init() {
+	registerReplay([]string{"(*dht/krpc.NodeAddr).UnmarshalBinary", "(*dht/krpc.NodeInfo).UnmarshalBinary"}, "krpc", "krpc/krpc_replay_test.go", "TestGovcReplayKrpc")
+}
